@@ -267,6 +267,51 @@ theorem session_late_update (w : SWin) (k : Key) (r : Row) (now : Int) (t : Trig
   · unfold onTimeFate at h
     split at h <;> cases h
 
+/-- the sessions an expiry pass registers for late rows: everything that was registered, followed by the sessions it fired -/
+theorem session_registered_after_pass (l : List Trig) (ex : List Sess) (lat : Int) :
+    ex.foldl (fun acc s => putTrig acc { sess := s, close := s.stop + lat }) l
+      = l ++ ex.map (fun s => { sess := s, close := s.stop + lat }) := by
+  induction ex generalizing l with
+  | nil => simp
+  | cons s ss ih => rw [List.foldl_cons, ih]; simp [putTrig]
+
+/-- **A fired session stays open for late rows until its allowance ends**, whatever else of its key fires meanwhile:
+an expiry pass at watermark `x` keeps every registered session whose allowance reaches beyond `x` … -/
+theorem session_registered_kept (w : SWin) (x : Int) (t : Trig) (hl : 0 < w.lateness) (ht : t ∈ w.trig)
+    (hx : x < t.close) : t ∈ (stepExpire w x).1.trig := by
+  simp only [stepExpire, hl, if_true, session_registered_after_pass, List.mem_filter, List.mem_append]
+  exact ⟨Or.inl ht, by simp; omega⟩
+
+/-- … and registers every session it fires whose allowance reaches beyond `x`, with the rows it delivered -/
+theorem session_fired_registered (w : SWin) (x : Int) (e : Emission) (hl : 0 < w.lateness)
+    (he : e ∈ (stepExpire w x).2) (hx : x < e.stop + w.lateness) :
+    ∃ t ∈ (stepExpire w x).1.trig, t.sess.key = e.key ∧ t.sess.start = e.start ∧ t.sess.stop = e.stop ∧
+      t.sess.rows = e.rows ∧ t.close = e.stop + w.lateness := by
+  simp only [stepExpire, List.mem_map] at he
+  obtain ⟨s, hs, rfl⟩ := he
+  refine ⟨{ sess := s, close := s.stop + w.lateness }, ?_, rfl, rfl, rfl, rfl, rfl⟩
+  simp only [stepExpire, hl, if_true, session_registered_after_pass, List.mem_filter, List.mem_append, List.mem_map]
+  exact ⟨Or.inr ⟨s, hs, rfl⟩, by simp; simpa using hx⟩
+
+/-- **Late update, the other direction.** A late row that falls into a registered session of its key whose allowance
+the watermark has not passed is re-delivered: the Add emits one late result of a registered, still open session of
+the key containing the row, and its contents are that session's rows followed by the row. -/
+theorem session_open_entry_redelivered (w : SWin) (k : Key) (r : Row) (now : Int) (t : Trig)
+    (hl : 0 < w.lateness) (hlate : lateNow w r now = true) (ht : t ∈ w.trig) (hk : t.sess.key = k)
+    (hin : t.sess.start ≤ r.ts ∧ r.ts < t.sess.stop) (hop : stillOpen (wmAfter w r now).cur t = true) :
+    ∃ t' ∈ w.trig, t'.sess.key = k ∧ (t'.sess.start ≤ r.ts ∧ r.ts < t'.sess.stop) ∧
+      (stepAdd w k r now).2 = [{ late := true, key := k, start := t'.sess.start, stop := t'.sess.stop, rows := t'.sess.rows ++ [r] }] := by
+  have hsome : (findTrig w k r.ts (wmAfter w r now).cur).isSome = true := by
+    unfold findTrig
+    rw [List.find?_isSome]
+    exact ⟨t, ht, by simp [slotHas, hk, hin.1, hin.2, hop]⟩
+  obtain ⟨t', ht'⟩ := Option.isSome_iff_exists.mp hsome
+  have hf : fate w k r now = .lateAbsorb t' := by
+    unfold fate lateFate
+    simp [hlate, hl, ht']
+  obtain ⟨hem, hmem, hkey, hslot, _, _⟩ := session_late_update w k r now t' hf
+  exact ⟨t', hmem, hkey, hslot, hem⟩
+
 end session
 
 /-! ### non-vacuity: a late update inside the allowance, one beyond it -/
@@ -282,5 +327,17 @@ example : (stepAdd (run (init 10 0 50) demoOps).1 ⟨3, 1007⟩ 1000000).2.map (
 -- with the watermark already at 1100 (undelivered) the same row is beyond the allowance
 example : fate (stepAdd (run (init 10 0 50) demoOps).1 ⟨4, 1100⟩ 1000000).1 ⟨3, 1007⟩ 1000000 = .drop := by decide
 end demo
+
+section sessionDemo
+open Session
+/-- the witness of the repaired defect: key a fires [90,95), later [101,106) under the reused map key; the late row a@92
+arrives with the watermark at 120 < 95 + 30 and is re-delivered with the older session -/
+def sessOps : List Op :=
+  [.add ['a'] ⟨1, 90⟩ 1000000, .add ['b'] ⟨2, 100⟩ 1000000, .deliver, .deliver,
+   .add ['a'] ⟨3, 101⟩ 1000000, .add ['b'] ⟨4, 120⟩ 1000000, .deliver, .deliver, .deliver]
+example : ((run (init 5 0 30) sessOps).1.trig.map (fun t => (t.sess.start, t.sess.stop))) = [(90, 95), (101, 106), (100, 105)] := by decide
+example : (stepAdd (run (init 5 0 30) sessOps).1 ['a'] ⟨5, 92⟩ 1000000).2.map (fun e => (e.late, e.start, e.stop, e.rows.map (·.id)))
+    = [(true, 90, 95, [1, 5])] := by decide
+end sessionDemo
 
 end C02
